@@ -21,8 +21,9 @@ pub enum Policy {
     RabbitRunner,
     PassEarly,
     Rotator,
+    Shuttler,
 }
-pub const POLICIES: [Policy; 8] = [Policy::Uniform, Policy::PassHappy, Policy::Shuffler, Policy::Pusher, Policy::TrapSeeker, Policy::RabbitRunner, Policy::PassEarly, Policy::Rotator];
+pub const POLICIES: [Policy; 9] = [Policy::Uniform, Policy::PassHappy, Policy::Shuffler, Policy::Pusher, Policy::TrapSeeker, Policy::RabbitRunner, Policy::PassEarly, Policy::Rotator, Policy::Shuttler];
 
 #[derive(Clone, Copy, PartialEq, Eq, Debug)]
 pub enum SetupPolicy {
@@ -35,8 +36,8 @@ pub enum SetupPolicy {
 /// workload mix of a property's check (weights and menus the per-run swarm draws from)
 #[derive(Clone, Debug)]
 pub struct Mix {
-    pub families: [u32; 10],
-    pub policies: [u32; 8],
+    pub families: [u32; 13],
+    pub policies: [u32; 9],
     pub caps: &'static [usize],
     pub fan: &'static [f64],
     pub fan2: &'static [f64],
@@ -85,6 +86,8 @@ impl Swarm {
         }
         let (restart, fork) = if faults { (restart, fork) } else { (0.0, 0.0) };
         // the cage needs the two sides to shuffle and pass as early as possible
+        // small clustered positions: expand whole turns exhaustively, starting at the first state
+        let dfs = if family == Family::TrapCluster || family == Family::Motif { 0.02 } else { dfs };
         let policy = if family == Family::Cage && rng.chance(0.8) { [Policy::PassEarly, Policy::PassEarly] } else { [p0, p1] };
         Swarm { family, cap, fan, fan2, rt, restart, fork, snap: if fork > 0.0 { (fork * 2.0).min(0.5) } else { 0.0 }, dfs, policy, setup_policy: sp }
     }
@@ -101,10 +104,14 @@ pub struct RandomSource {
     pub sw: Swarm,
     pub steps: usize,
     recent: Vec<[u8; 64]>,
+    /// Shuttler: steps per turn before passing (1..=3), fixed per run
+    shuttle_k: usize,
 }
 impl RandomSource {
     pub fn new(rng: Rng, sw: Swarm) -> Self {
-        RandomSource { rng, sw, steps: 0, recent: vec![] }
+        let mut rng = rng;
+        let shuttle_k = 1 + rng.below(3);
+        RandomSource { rng, sw, steps: 0, recent: vec![], shuttle_k }
     }
     fn choose(&mut self, w: &World, info: &StateInfo) -> usize {
         let n = info.offered.len();
@@ -142,10 +149,18 @@ impl RandomSource {
                 Some(i) if coin(r1, 0.45) => i,
                 _ => uniform,
             },
-            Policy::Shuffler | Policy::PassEarly => {
+            Policy::Shuffler | Policy::PassEarly | Policy::Shuttler => {
                 if pol == Policy::PassEarly {
                     if let Some(i) = pass_idx {
                         return i;
+                    }
+                }
+                if pol == Policy::Shuttler {
+                    // multi-step turns that shuttle back and forth: k steps, then pass
+                    if w.m.steps_made() >= self.shuttle_k {
+                        if let Some(i) = pass_idx {
+                            return i;
+                        }
                     }
                 }
                 if pol == Policy::Shuffler && !coin(r1, 0.7) {
@@ -251,6 +266,13 @@ impl Source for RandomSource {
         let fork = self.rng.chance(self.sw.fork);
         let fork_k = self.rng.next();
         let dfs = self.rng.chance(self.sw.dfs);
+        // crafted small positions: always expand the whole first turn
+        let dfs = dfs || (self.steps == 1 && (self.sw.family == Family::TrapCluster || self.sw.family == Family::Motif));
+        // a turn that starts from a position which already stood twice: the repetition rules are
+        // about to bite somewhere in this turn's tree, so expand it (drawn always, used sometimes)
+        let cycle_coin = self.rng.chance(0.015);
+        let in_cycle = !w.m.setup && w.m.steps_made() == 0 && w.rec.occurrences(&w.m.board, w.m.side) >= 2;
+        let dfs = dfs || (cycle_coin && in_cycle);
         let restart = self.rng.chance(self.sw.restart);
         if snap {
             ops.push("!snap".to_string());
@@ -343,29 +365,47 @@ fn fan_out(ctx: &mut Ctx, eq: &mut EqTable, w: &mut World, info: &StateInfo, dep
     Ok(())
 }
 
-/// exhaustive expansion of the rest of the current turn (every step sequence until the turn
-/// ends), with the full state check at every node; bounded by a node budget
-fn turn_dfs(ctx: &mut Ctx, eq: &mut EqTable, w: &mut World, info: &StateInfo, budget: &mut usize, path: &mut Vec<String>) -> Result<(), Stop> {
+/// Exhaustive expansion of the rest of the current turn (every step sequence until the turn ends)
+/// by iterative deepening, so that a node budget cuts the deepest level rather than whole
+/// branches: pass `level` visits the nodes at depth `level` with the monitors on and merely
+/// re-applies the shallower steps.
+fn turn_dfs(ctx: &mut Ctx, eq: &mut EqTable, w: &mut World, info: &StateInfo, budget: &mut usize, path: &mut Vec<String>, level: usize) -> Result<(), Stop> {
     let side = w.m.side;
+    let depth = path.len() + 1;
     for a in &info.offered {
         if *budget == 0 {
             return Ok(());
         }
-        *budget -= 1;
         let cp = w.checkpoint();
         path.push(a.to_string());
         let r = (|| -> Result<(), Stop> {
+            if depth < level {
+                // an inner node of this pass: it was checked by an earlier pass; re-apply quietly
+                let saved = std::mem::replace(&mut ctx.own, 0);
+                let ra = w.apply(ctx, a, false);
+                ctx.own = saved;
+                ra?;
+                if w.m.side != side || w.m.steps_made() == 0 {
+                    return Ok(());
+                }
+                let offered = eng!("valid_actions", w.gs.valid_actions());
+                if offered.is_empty() || eng!("is_terminal", w.gs.is_terminal()).is_some() {
+                    return Ok(());
+                }
+                let info2 = StateInfo { offered, norep: vec![], finished: false };
+                return turn_dfs(ctx, eq, w, &info2, budget, path, level);
+            }
+            *budget -= 1;
             w.apply(ctx, a, true)?;
             ctx.stats.inc("turn_dfs_nodes");
-            if w.m.side != side || w.m.steps_made() == 0 {
-                // the turn ended: the cheap monitors and the result at the new turn start
-                let info2 = w.check_state(ctx, eq)?;
-                let _ = info2;
-                return Ok(());
-            }
-            let info2 = w.check_state(ctx, eq)?;
-            if !info2.finished {
-                turn_dfs(ctx, eq, w, &info2, budget, path)?;
+            let ended = w.m.side != side || w.m.steps_made() == 0;
+            // properties about lists and results need the full state check at every node; for the
+            // others the edge monitors and the cheap state monitors decide
+            let needs_full = if ended { ctx.own & (p(4) | p(7) | p(19)) != 0 } else { ctx.own & (p(1) | p(4) | p(5) | p(6) | p(7) | p(9) | p(12) | p(19)) != 0 };
+            if needs_full {
+                w.check_state(ctx, eq)?;
+            } else {
+                w.check_cheap(ctx, eq)?;
             }
             Ok(())
         })();
@@ -426,8 +466,16 @@ pub fn execute(ctx: &mut Ctx, eq: &mut EqTable, start: &Start, src: &mut dyn Sou
                     "?fan2" => fan_out(ctx, eq, &mut w, &info, 2)?,
                     "?turn" => {
                         ctx.stats.inc("turn_dfs");
-                        let mut budget = 1500usize;
-                        turn_dfs(ctx, eq, &mut w, &info, &mut budget, &mut vec![])?;
+                        // crafted small positions have small turn trees: afford them completely
+                        let small = pieces(&w.m.board) <= 9;
+                        let mut budget = if small { ctx.dfs_budget * 3 } else { ctx.dfs_budget };
+                        let max_level = 4usize.saturating_sub(w.m.steps_made());
+                        for level in 1..=max_level {
+                            if budget == 0 {
+                                break;
+                            }
+                            turn_dfs(ctx, eq, &mut w, &info, &mut budget, &mut vec![], level)?;
+                        }
                     }
                     "?rt" => {
                         w.check_roundtrip(ctx)?;
